@@ -179,6 +179,28 @@ FACTS = [
     ("h2", "new",
      ["$icw . clamp ( 65535 , 2147483647 )", "$icw . max ( 65535 ) . min ( 2147483647 )"],
      "H2ConnectionConfig::new no longer clamps initial_connection_window to [65535, 2^31-1]"),
+    # a stream slot, fresh or recycled, starts with the peer's current initial window (model slotw_step, SwCreate): both sites
+    ("mod", "create_stream",
+     ["...{8} . window = i32 :: try_from ( $w ) . unwrap_or ( 2147483647 ) ; ...{8} . backend_window = 65535 ;",
+      "...{8} . backend_window = 65535 ; ...{8} . window = i32 :: try_from ( $w ) . unwrap_or ( 2147483647 ) ;"],
+     "Context::create_stream no longer resets the send windows of a recycled stream slot (the next stream would start with what its predecessor left)"),
+    ("stream", "new",
+     ["window : i32 :: try_from ( $w ) . unwrap_or ( 2147483647 ) , backend_window : 65535 ,"],
+     "Stream::new no longer starts a fresh stream with the peer's initial window (and the default toward a backend)"),
+    # RFC 7541 4.2 (model tsz_step / tsz_emit): the smallest table size since the last header block is kept next to the last
+    # one, and the block starts with it when it is below the final size
+    ("h2", "handle_settings_frame",
+     ["self . $low = Some ( self . $low . or ( self . $last ) . map_or ( ...{20} , | $l | $l . min ( ...{20} ) ) , ) ; self . $last = Some (",
+      "self . $low = Some ( self . $low . or ( self . $last ) . map_or ( ...{20} , | $l | $l . min ( ...{20} ) ) ) ; self . $last = Some ("],
+     "handle_settings_frame no longer keeps the smallest SETTINGS_HEADER_TABLE_SIZE seen since the last header block next to the last one"),
+    ("converter", "emit_pending_size_update_if_new_block",
+     ["if let Some ( $n ) = self . $last . take ( ) { if let Some ( $l ) = self . $low . take ( ) . filter ( | $x | * $x < $n ) { "
+      "if ...{6} encode_integer_into ( $l as usize , 5 , 32 , & mut self . out ) ...{60} encode_integer_into ( $n as usize , 5 , 32 , & mut self . out )"],
+     "the converter no longer starts a header block with the smallest pending table size (when below the final one) and then the final one"),
+    ("h2", "write_streams",
+     ["if ...{6} { self . pending_table_size_update = None ; self . pending_table_size_min = None ; }",
+      "if ...{6} { self . pending_table_size_min = None ; self . pending_table_size_update = None ; }"],
+     "write_streams no longer clears both pending table sizes once the converter emitted them"),
     ("converter", "call",
      ["self . window -= i32 :: try_from ( $n ) . unwrap_or ( 2147483647 ) ;"],
      "converter DATA arm no longer subtracts the payload from its window"),
@@ -418,7 +440,7 @@ def extra_stage(tier, rng, work):
     # part 2: receiver-side credit (padded DATA, exact client ledger of both windows) and the backend's
     # MAX_CONCURRENT_STREAMS (cancelled request, limit lowered to 0 on an idle connection, burst of requests
     # attached while the backend was still connecting); the scripted backend keeps the RFC 9113 5.1 stream states
-    runs2 = [["pad", "600", "10", "255"], ["tiny", "6000", "10", "255"], ["shrink"], ["cancel"], ["mcs0"], ["burst", "4"], ["resettings"]]
+    runs2 = [["pad", "600", "10", "255"], ["tiny", "6000", "10", "255"], ["shrink"], ["cancel"], ["mcs0"], ["burst", "4"], ["resettings"], ["refused"], ["leftover"], ["hpack2"]]
     if tier == "thorough":
         runs2 += [["pad", "300", "1", "255"], ["pad", "200", "16000", "100"], ["burst", "8"]]
     for a in runs2:
